@@ -123,13 +123,42 @@ def check(ctx):
             sentinel = [z for z in (a.args[1], a.args[2])
                         if tm.is_const(z)][0]
             break
-    ctx.require(n_atom is not None, "test of n against its 'all poses' "
-                "marker not found in align (unknown idiom)")
-    n_all_true = n_atom.args[0] in ("Eq", "Is")  # atom true means n is "all"
+    n_cases = (True, False)
+    if n_atom is None:
+        # no test of n at all: the row restriction [:n] is applied whatever
+        # n is. Right if the "all poses" default is None ([:None] is
+        # everything), wrong if it is a negative count
+        import ast as _ast
+        d = fa.defaults().get("n")
+        dv = d.value if isinstance(d, _ast.Constant) else (
+            -d.operand.value if isinstance(d, _ast.UnaryOp) and isinstance(
+                d.op, _ast.USub) and isinstance(d.operand, _ast.Constant)
+            else "?")
+        ums = [e for e in base.calls(UME) if not tm.is_const(e.live, False)]
+        sliced = bool(ums) and all(
+            _row_slice(_strip_T(e.data["bound"][k]))[1] is npar
+            for e in ums for k in ("x", "y") if e.data["bound"].get(k))
+        if sliced and isinstance(dv, int) and not isinstance(dv, bool) \
+                and dv < 0:
+            ctx.ob("C04.2", ums[0], False,
+                   f"align: the point sets are always restricted to [:n], "
+                   f"also for the default n={dv} that stands for 'all "
+                   f"poses': [:{dv}] drops the last {-dv} pose pair(s) from "
+                   f"the alignment", key="C04.2:first-n")
+            return
+        ctx.require(sliced and dv is None, "test of n against its 'all "
+                    "poses' marker not found in align (unknown idiom)")
+        ctx.ob("C04.2", ums[0], True,
+               "align: [:n] with the default n=None selects all poses",
+               key="C04.2:first-n:none-default")
+        n_cases = (False,)
+        n_atom = T("never")
+        sentinel = const(None)
+    n_all_true = n_atom.args[0] in ("Eq", "Is") if n_atom.args else True
     _sentinel_agreement(ctx, prog, fa, sentinel)
 
     for cs, cos in itertools.product([False, True], repeat=2):
-        for n_all in (True, False):
+        for n_all in n_cases:
             cfg = dict(extra, correct_scale=const(cs),
                        correct_only_scale=const(cos))
             av = n_all if n_all_true else not n_all
